@@ -49,6 +49,60 @@ CLAIMED = {
              "the model. No axioms.",
         technique="Coq proofs over function and LTS models + differential testing and deterministic simulation of the real producer",
         design="5/C02"),
+    "C04": dict(
+        text="Machine-checked proof (Coq 8.16) over a per-partition model of the coordinator's committed offset, the "
+             "successive owner incarnations (start = committed else log start, position, alive) and the set of offsets "
+             "handed to the application: every accepted commit has only delivered offsets below it, everything below the "
+             "committed offset was delivered by some incarnation wherever members were killed, stopped or rebalanced, a new "
+             "owner starts exactly at the committed offset (redelivery bound). Per-partition traces of real consumer groups "
+             "under the simulator (kills, stops, rebalances, commit faults, coordinator failover with/without state) must be "
+             "accepted by the model; a monitor states the property on the coordinator's commit log.",
+        note="Trusted: Coq kernel; hand model Offsets.v tied by trace acceptance; simulated group coordinator (generation "
+             "check on OffsetCommit) as oracle; generated logs contain only visible data records (invisible offsets: C03/C08); "
+             "no user seek() in group scenarios. No axioms.",
+        technique="Coq invariant proofs over an LTS model + trace acceptance of real consumer groups under deterministic simulation",
+        design="5/C04"),
+    "C05": dict(
+        text="Machine-checked proof (Coq 8.16) over a model of the group membership protocol at the client boundary "
+             "(coordinator JoinGroup/SyncGroup barriers composed with each member's revoke -> join -> sync -> adopt -> "
+             "assigned life cycle and the delivery gate, with a ghost clock): a member adopts exactly the entry distributed "
+             "to it for that generation; adopted assignments of one generation are disjoint given a disjoint distribution "
+             "(C14); nothing is delivered between the start of on_partitions_revoked and the adoption of the next "
+             "assignment and only from the adopted assignment; every member of a generation finished on_partitions_revoked "
+             "before that generation's barrier completed, which precedes every on_partitions_assigned of the generation. "
+             "Whole boundary traces of groups of 1-4 real consumers under the simulator must be accepted by the model; "
+             "monitors restate the clauses on the coordinator's generation history and the recorded callbacks.",
+        note="Trusted: Coq kernel; hand model Group.v tied by trace acceptance; simulated group coordinator (Kafka classic "
+             "protocol) as oracle; callbacks/requests/deliveries observed from outside. The gate opens at adoption "
+             "(assign_from_subscribed precedes the assigned callback) as in the code. No axioms.",
+        technique="Coq invariant proofs (ghost clock) over an LTS model + trace acceptance under deterministic simulation",
+        design="5/C05"),
+    "C06": dict(
+        text="Machine-checked proof (Coq 8.16) of the request-content clauses over perform_group_join modelled as a function "
+             "of the coordinator's replies: every JoinGroup advertises all configured strategies in order; a successful "
+             "JoinGroup reply (also after MEMBER_ID_REQUIRED rounds) is followed by this member's SyncGroup for that "
+             "generation and identity. The model is tied to the real method by exhaustive differential testing over "
+             "well-typed reply scripts x assignor lists x JoinGroup v0-v5. The convergence clause is decided by a monitor on "
+             "simulated groups with fault sequences followed by a quiet period (latest generation = live members, "
+             "heartbeats continue, full coverage, no further rebalance); its model-level proof is not done (partial).",
+        note="Trusted: Coq kernel; hand model tied by exhaustive differential testing with a fake coordinator object and the "
+             "real request builders; convergence is a simulator monitor in virtual time, not a theorem. No axioms.",
+        technique="Coq proofs over a function model + exhaustive differential testing; simulation monitor for convergence",
+        design="5/C06"),
+    "C19": dict(
+        text="Machine-checked proof (Coq 8.16) over the control skeleton of stop(): the final commit's retry loop makes exactly "
+             "one attempt once closing (and provably never ends on retriable errors if closing is ignored - the defect that was "
+             "fixed), and every stop path whose awaits are bounded by the request timeout returns within 4 request timeouts for "
+             "every environment oracle. Runtime clauses are decided by the simulator: stop() is issued at a sweep of points "
+             "(bootstrap, first join, steady state, mid-rebalance) under healthy / unreachable / failing-over clusters for group "
+             "and group-less consumers and for producers with unresolved batches; the monitor checks the bound, that no task or "
+             "connection of the client survives, that later API calls raise the stopped/closed error and that LeaveGroup was "
+             "sent when the coordinator was reachable.",
+        note="Partial: the theorem covers the skeleton's termination/bound; leaked tasks, timers and transports are runtime "
+             "facts sampled on the live objects at every explored stopping point. Trusted: Coq kernel, hand skeleton, simulator. "
+             "No axioms.",
+        technique="Coq proofs over a control-skeleton model + runtime monitor under deterministic simulation",
+        design="5/C19"),
 }
 
 ALL = [f"C{i:02d}" for i in range(1, 20)]
